@@ -264,9 +264,22 @@ pub struct InstCfg {
     pub absent_functions: bool,
     /// a present Function message whose oneof is unset
     pub unset_oneof: bool,
+    /// up to 32 stored terms per function part instead of 6
+    pub big_functions: bool,
 }
 
 impl InstCfg {
+    /// thorough tier: one case in eight explores a much larger instance (many variables, constraints
+    /// and terms), so that defects with a size threshold have a chance to show
+    pub fn deepen(&mut self, thorough: bool, k: u64) {
+        if thorough && k % 8 == 5 {
+            self.max_vars = 24;
+            self.max_constraints = 20;
+            self.max_removed = 10;
+            self.big_functions = true;
+        }
+    }
+
     pub fn new(regime: Regime) -> Self {
         InstCfg {
             regime,
@@ -281,6 +294,7 @@ impl InstCfg {
             metadata: true,
             absent_functions: true,
             unset_oneof: true,
+            big_functions: false,
         }
     }
 }
@@ -379,7 +393,7 @@ pub fn gen_constraint_id_pool(rng: &mut Rng, n: usize) -> Vec<u64> {
     let mut s = BTreeSet::new();
     let sparse = rng.chance(1, 3);
     while s.len() < n {
-        s.insert(if sparse { rng.below(1000) * 7 + 3 } else { rng.below(10) });
+        s.insert(if sparse { rng.below(1000) * 7 + 3 } else { rng.below(10.max(3 * n as u64)) });
     }
     let mut v: Vec<u64> = s.into_iter().collect();
     rng.shuffle(&mut v);
@@ -423,7 +437,7 @@ pub fn gen_instance(rng: &mut Rng, cfg: &InstCfg) -> GenInstance {
     fcfg.max_degree = cfg.max_degree;
     fcfg.dup_positions = cfg.dup_positions;
     fcfg.allow_unset = cfg.unset_oneof;
-    fcfg.max_terms = 6;
+    fcfg.max_terms = if cfg.big_functions { 32 } else { 6 };
     inst.objective = if cfg.absent_functions && rng.chance(1, 10) {
         None
     } else {
